@@ -93,11 +93,15 @@ func (pq *priorityQueue) Peek() *PriorityQueueItem {
 func (pq *priorityQueue) Reverse() PriorityQueue {
     switch pq.queue.(type) {
     case *minPriorityQueue:
-        queue := maxPriorityQueue(*pq.queue.(*minPriorityQueue))
+        source := *pq.queue.(*minPriorityQueue)
+        queue := make(maxPriorityQueue, len(source))
+        copy(queue, source)
 
         return initializePriorityQueue(&queue)
     case *maxPriorityQueue:
-        queue := minPriorityQueue(*pq.queue.(*maxPriorityQueue))
+        source := *pq.queue.(*maxPriorityQueue)
+        queue := make(minPriorityQueue, len(source))
+        copy(queue, source)
 
         return initializePriorityQueue(&queue)
     default:
